@@ -237,6 +237,7 @@ inductive Op where
   | process (items : List (Hash × Blob))
   | deliver (b : Blob)                      -- downloader `processNodeData`: `Process [(Keccak(b), b)]`
   | commit (failAt : Option Nat)
+  | restart                                 -- the Sync object is dropped (crash / cancel) and a new one is created over the same database
 deriving Repr, Inhabited
 
 inductive Out where
@@ -269,6 +270,7 @@ def step (e : Env) (s : St) : Op → St × Out
   | .commit failAt =>
     let (s', l) := commitTo s failAt
     (s', .written l)
+  | .restart => (St.init s.db, .ok)
 
 def run (e : Env) (s : St) (ops : List Op) : St := ops.foldl (fun s op => (step e s op).1) s
 
